@@ -189,10 +189,21 @@ def gen_case(rnd, i=0):
     else:
         target = {'kind': 'portfolio', 'own_grid': True}
     # a second grid (first part of the horizon) with its own prices
-    T2 = max(1, T // 2)
-    g2 = dict(g)
-    g2['end'] = g['_pts'][T2]
-    gen.fix_grid(g2)
+    g2 = None
+    for T2 in [max(1, T // 2), max(1, T // 2) + 1, max(1, T // 2) - 1, T]:
+        if not (1 <= T2 <= T):
+            continue
+        cand = dict(g)
+        cand['end'] = g['_pts'][T2]
+        try:                    # (a local end point may be ambiguous / missing on a DST day)
+            gen.fix_grid(cand)
+            scen.make_grid(cand)
+            g2 = cand
+            break
+        except Exception:
+            continue
+    if g2 is None:
+        g2 = dict(g)
     T2r = scen.make_grid(g2).T
     prices2 = {k: [gen.q8(rnd, -4, 20) for _ in range(T2r)] for k in scn['prices']}
     return {'scn': scn, 'form': form, 'target': target, 'grid2': g2, 'prices2': prices2, 'solve': (i % 5 == 4)}
@@ -675,6 +686,94 @@ def codec_case(rnd):
     return viol, dis
 
 
+# ------------------------------------------------------------------ the regenerated obligation
+LEAN_OUT = 'EAO/Generated/Schema.lean'
+KNOWN_SCHEMA_FINDINGS = {'LinkedAsset'}      # F-11d: excluded BY NAME in EAO.C11.schema_roundtrip
+
+THEOREMS = [
+    ('EAO.Properties.C11', 'EAO.C11.schema_roundtrip', 'every class of the table regenerated from the sources (except LinkedAsset, by name) satisfies RoundTripOK; kernel-checked over the regenerated table on every run'),
+    ('EAO.Properties.C11', 'EAO.C11.linkedAsset_not_roundtrip', 'F-11d: LinkedAsset stays in the table and is proved not to satisfy RoundTripOK'),
+    ('EAO.Properties.C11', 'EAO.C11.schema_table_ok', 'class names distinct, one way to recover the class per tag, no clash with the tags of the value codec'),
+    ('EAO.Properties.C11', 'EAO.C11.timegrid_stored_keys', 'a Timegrid is written as exactly start, end, freq, main_time_unit, timezone <- tz'),
+    ('EAO.Properties.C11', 'EAO.C11.computed_fields_not_stored', 'computed CHP fields and the base-asset copies of a ScaledAsset are not written'),
+    ('EAO.Properties.C11', 'EAO.C11.roundtrip_of_schema', 'for every object tree over classes satisfying RoundTripOK: dec (enc v) = some v (structural induction, any depth)'),
+    ('EAO.Properties.C11', 'EAO.C11.encode_decode_encode', 'saving the loaded object reproduces the same JSON'),
+    ('EAO.Properties.C11', 'EAO.C11.decode_encode_value', 'value codec: dates, naive/aware datetimes, numeric and datetime64 arrays, DatetimeIndex, nested lists/dicts, under WholeSecond'),
+    ('EAO.Properties.C11', 'EAO.C11.computed_fields_ignored', 'an object carrying computed fields (after set-up) is written as the same JSON as without them'),
+]
+
+
+def regenerate(repo='/repo'):
+    """step 1 of the check: rewrite EAO/Generated/Schema.lean from the sources (unchanged file keeps its time stamp)"""
+    from .. import lean
+    import os
+    return schema_gen.main(['--repo', repo, '--out', os.path.join(lean.LEAN_DIR, LEAN_OUT)])
+
+
+def schema_report(timeout=300):
+    """when `schema_roundtrip` no longer checks: which class fails which named check (evaluates
+    `EAO.Schema.report classes` in Lean on the regenerated table); returns [(class, [checks])] without the
+    known findings, or None if Lean could not evaluate it"""
+    from .. import lean
+    import os
+    import re
+    import subprocess
+    path = os.path.join(lean.LEAN_DIR, '.lake', 'c11_report_%d.lean' % os.getpid())
+    os.makedirs(os.path.dirname(path), exist_ok=True)
+    open(path, 'w').write('import EAO.Generated.Schema\nopen EAO.Schema\n'
+                          '#eval (report classes).map (fun x => x.1 ++ ":" ++ ",".intercalate x.2)\n'
+                          '#eval tableOK classes\n')
+    try:
+        p = subprocess.run(['lake', 'env', 'lean', path], cwd=lean.LEAN_DIR, capture_output=True, text=True, timeout=timeout)
+    finally:
+        try:
+            os.remove(path)
+        except OSError:
+            pass
+    if p.returncode != 0:
+        return None
+    out = []
+    for m in re.finditer(r'"([A-Za-z0-9_]+):([^"]*)"', p.stdout):
+        if m.group(1) not in KNOWN_SCHEMA_FINDINGS:
+            out.append((m.group(1), m.group(2).split(',')))
+    if 'false' in p.stdout.split(']')[-1]:
+        out.append(('<table>', ['tableOK']))
+    return out
+
+
+# ------------------------------------------------------------------ property-module style entry points
+def scenarios(seed, tier):
+    n = 150 if tier == 'quick' else 1200
+    rnd = random.Random(seed * 104729 + 11)
+    for i in range(n):
+        yield 'gen%d' % i, gen_case(random.Random(rnd.getrandbits(48)), i)
+    for j in range(3 if tier == 'quick' else 10):
+        yield 'codec%d' % j, {'codec': True, 'seed': rnd.getrandbits(32), 'n': 100}
+
+
+def run_case(case, drv=None):
+    """one case through oracle + translator self-check, in the result format of harness.core"""
+    r = {'evaluated': 1, 'nontrivial': False, 'features': [], 'disagreements': [], 'violations': []}
+    if case.get('codec'):
+        rnd = random.Random(case['seed'])
+        for _ in range(case['n']):
+            v, d = codec_case(rnd)
+            r['violations'] += v
+            r['disagreements'] += d
+        r['nontrivial'] = True
+        r['features'].append('codec')
+        r['evaluated'] = case['n']
+        return r
+    res = run_impl(case)
+    r['nontrivial'] = res['nontrivial']
+    r['features'] = res['features']
+    r['violations'] = res['violations']
+    d, seen = schema_selfcheck(case)
+    r['disagreements'] = d
+    r['features'] += ['schema-class:' + c for c in sorted(set(seen))]
+    return r
+
+
 # ------------------------------------------------------------------ self-test
 def selftest(n=200, seed=1, drv=None, verbose=False):
     """n generated cases through the oracle and the translator self-check, 3n codec values.
@@ -683,6 +782,14 @@ def selftest(n=200, seed=1, drv=None, verbose=False):
     res = {'cases': 0, 'nontrivial': 0, 'violations': [], 'known': 0, 'disagreements': [], 'classes_seen': {},
            'features': {}, 'codec_values': 0}
     res['disagreements'] += check_signatures(the_schema())
+    # classes no generated case instantiates directly
+    for o in (eao.assets.Asset(name='plain'), eao.Unit(), eao.Node('n', commodity='gas')):
+        raw = json.loads(ser.to_json(o))
+        res['disagreements'] += check_json_against_schema(raw, the_schema(), False)
+        c = _class_of_dict(raw, the_schema())
+        res['classes_seen'][c['name']] = res['classes_seen'].get(c['name'], 0) + 1
+        if ser.to_json(ser.load_from_json(ser.to_json(o))) != ser.to_json(o):
+            res['violations'].append(('static', {'oracle': 'c11-resave', 'detail': type(o).__name__, 'facts': {'class': type(o).__name__}}))
     for i in range(n):
         case = gen_case(random.Random(rnd.getrandbits(48)), i)
         r = run_impl(case)
